@@ -64,7 +64,7 @@ pub(crate) fn read(file: &mut File) -> Vec<u8> {
 
 /// A meta characters splitted string.
 ///
-/// Meta characters (`-]~!@#%&*()_=+[{}'\";<>/?|.,।`) are splitted
+/// Meta characters (`-]~!@#%&*()_=+[{}'\";<>/?|.,।‘’“”`) are splitted
 /// from a string as preceding and trailing parts.
 #[derive(Debug)]
 pub(crate) struct SplittedString<'a> {
@@ -79,7 +79,7 @@ impl SplittedString<'_> {
     ///
     /// `include_colon` argument controls the inclusion of colon as a trailing meta character.
     pub(crate) fn split(input: &str, include_colon: bool) -> SplittedString {
-        const META: &str = "-]~!@#%&*()_=+[{}'\";<>/?|.,।";
+        const META: &str = "-]~!@#%&*()_=+[{}'\";<>/?|.,।‘’“”";
 
         let first_index = match input.find(|c| !META.contains(c)) {
             Some(i) => i,
